@@ -19,21 +19,27 @@ CONFIGS = {
     "M3K": dict(Keys={1}, Nodes={1, 2, 3}, F=2, Times={0, 1, 2}, Replicas={1, 2, 3}, MaxOps=3, MaxMerges=0, Mode='"prefix"'),
     "MG": dict(Keys={1, 2}, Nodes={1, 2}, F=2, Times={0, 3, 4}, Replicas={1, 2}, MaxOps=3, MaxMerges=2, Mode='"prefix"'),
 }
+# merging only (C03), single-source sets, three operations of two origin nodes spanning more than the forgiveness period: the delete of
+# one node's document by the other node followed, more than F later, by another operation of the deleting node.  No repair
+# transitions and no C05 laws: a repair through the one source would itself break the gap-free order the property presupposes.
+CONFIGS["ML1"] = dict(Keys={1, 2}, Nodes={1, 2}, F=1, Times={0, 2}, Replicas={1, 2}, MaxOps=3, MaxMerges=1, Mode='"prefix"', Sources={0}, Only="C03")
 # C08's local facts on sets reached through merges (WithPurge): one origin, stamps inside one window, three operations
 # (single-source sets, OrSWotSet<1>: the cut-off does not wait for a second source)
 CONFIGS["MP"] = dict(Keys={1, 2}, Nodes={1}, F=3, Times={0, 1, 2, 3}, Replicas={1, 2}, MaxOps=3, MaxMerges=1, Mode='"window"', Sources={0})
 CONFIGS["MQ"] = dict(Keys={1, 2}, Nodes={1, 2}, F=2, Times={0, 1, 2, 3}, Replicas={1, 2}, MaxOps=2, MaxMerges=2, Mode='"prefix"')
 PURGE_TIERS = {"quick": ["MP", "MQ"], "thorough": ["MP", "MQ", "MG"]}
-TIERS = {"quick": ["MA", "ME", "MW", "MK3", "MK4"], "thorough": ["MA", "ME", "MW", "MK3", "MK4", "MB", "MC", "MF", "MG", "M3N", "M3K"]}
+TIERS = {"quick": ["MA", "ME", "MW", "MK3", "MK4", "ML1"], "thorough": ["MA", "ME", "MW", "MK3", "MK4", "ML1", "MB", "MC", "MF", "MG", "M3N", "M3K"]}
 INVARIANTS = ["C03_Commutative", "C03_Idempotent", "C03_Associative", "C03_MutualMerge",
               "C05_DiffExact", "C05_OneExchange", "C05_MutualRepair", "WellFormedInv"]
 
 
 def _one(ctx, binary, name, with_purge=False):
-    c = CONFIGS[name]
+    c = dict(CONFIGS[name])
+    only = c.pop("Only", None)
     srcs = c.get("Sources", {0, 1})
-    consts = dict(c, Sources=srcs, FixD6=True, RepairSrc=max(srcs), WithPurge=with_purge)
-    mc_cfg = vlib.cfg_text(constants=dict(consts, EmitEdges=False), invariants=(["C08_StillRefused", "WellFormedInv"] if with_purge else INVARIANTS),
+    consts = dict(c, Sources=srcs, FixD6=True, RepairSrc=max(srcs), WithPurge=with_purge, NoRepair=bool(only))
+    invs = ["C08_StillRefused", "WellFormedInv"] if with_purge else [i for i in INVARIANTS if only is None or i.startswith(only) or i == "WellFormedInv"]
+    mc_cfg = vlib.cfg_text(constants=dict(consts, EmitEdges=False), invariants=invs,
                            properties=["C08_PurgeInvisible"] if with_purge else (), view="MCView")
     mc, mc_text = vlib.run_tlc(ctx, "MC_OrswotMerge", mc_cfg, "mc_" + name, workers=5, extra=["-coverage", "1"],
                                timeout=3000, xmx="8g")
@@ -42,7 +48,7 @@ def _one(ctx, binary, name, with_purge=False):
     out = ctx.path("replay_%s.json" % name)
     consumer = [binary, "replay-merge", "--input", "-", "--out", out, "--passthrough", ctx.path("gen_%s.tlc" % name),
                 "--f", str(c["F"]), "--keys", ",".join(map(str, sorted(c["Keys"]))), "--repair-src", str(max(srcs)), "--sources", str(len(srcs)),
-                "--times", ",".join(map(str, sorted(c["Times"]))), "--nodes", ",".join(map(str, sorted(c["Nodes"])))] + (["--no-laws", "1"] if with_purge else [])
+                "--times", ",".join(map(str, sorted(c["Times"]))), "--nodes", ",".join(map(str, sorted(c["Nodes"])))] + (["--no-laws", "1"] if with_purge else []) + (["--merge-laws-only", "1"] if only else [])
     gen, gen_text = vlib.tlc_pipe(ctx, "MC_OrswotMerge", gen_cfg, "gen_" + name, consumer, timeout=4000, xmx="8g")
     if gen["consumer_exit"] != 0 or not os.path.exists(out):
         raise vlib.ToolError("replayer failed on config %s (exit %s)" % (name, gen["consumer_exit"]))
@@ -56,11 +62,13 @@ def _one(ctx, binary, name, with_purge=False):
                 constants={k: sorted(v) if isinstance(v, set) else v for k, v in c.items()})
 
 
-def run_all(ctx, with_purge=False):
+def run_all(ctx, with_purge=False, prop=None):
+    """prop: the property the run is for (configurations marked Only=<other property> are left out)"""
     binary = vlib.build_harness(ctx, "h-crdt")
     results = []
     with concurrent.futures.ThreadPoolExecutor(max_workers=3) as ex:
-        futs = [ex.submit(_one, ctx, binary, n, with_purge) for n in (PURGE_TIERS if with_purge else TIERS)[ctx.tier]]
+        futs = [ex.submit(_one, ctx, binary, n, with_purge) for n in (PURGE_TIERS if with_purge else TIERS)[ctx.tier]
+                if CONFIGS[n].get("Only") in (None, prop)]
         for f in concurrent.futures.as_completed(futs):
             r = f.result()
             ctx.log("config %s: MC %d distinct / %d generated (%s); replayed %d edges, laws on %d states, %d violations, drift %d" % (
